@@ -236,7 +236,9 @@ func (s *indexKVStore) PrepareFlush() {
 	s.lock.Lock()
 	defer s.lock.Unlock()
 
-	if s.immutable == nil {
+	// NOTE: an empty immutable store is never flushed(Flush returns directly), so it must be replaced too,
+	// else mutable store is never swapped/flushed any more after one flush without new data.
+	if s.immutable == nil || s.immutable.IsEmpty() {
 		s.immutable = s.mutable
 		s.mutable = imap.NewIntMap[map[string]uint32]()
 	}
